@@ -154,7 +154,7 @@ Definition jws_run (input : list Z) : list Z :=
       match r0 with
       | which :: alg :: fam :: r1 =>
           match take_lp r1 with Some (crv, r2) => match take_lp r2 with Some (x, r3) => match take_lp r3 with Some (y, r4) =>
-          match take_lp r4 with Some (sg, r5) => match take_lp r5 with Some (msg, [pok; sok; verdict]) =>
+          match take_lp r4 with Some (sg, r5) => match take_lp r5 with Some (msg, pok :: sok :: verdict :: _) =>     (* a trailing flag says the verifier was used under another key before: no influence *)
             let a := if alg =? 0 then AEdDSA else if alg =? 1 then AES256 else if alg =? 2 then AES256K else AOther in
             let k := {| vk_family := (if fam =? 0 then KEc else if fam =? 1 then KRsa else if fam =? 2 then KOct else KOkp);
                         vk_crv := bytes_of crv; vk_x := bytes_of x; vk_y := bytes_of y |} in
